@@ -46,12 +46,16 @@ fn protocol_campaign(shard: &Shard, prop: &'static str, props: u32, only_all_imp
     }
     case_loop(shard, u64::MAX, |_i, rng| {
         if rng.chance(1, 2) {
-            let case = random_case(rng, only_all_impacted, false);
+            let long = !only_all_impacted && rng.chance(1, 3);
+            let mut case = random_case(rng, only_all_impacted, long);
+            // a quarter of the table instances of C12 in the big-M style (forbidden decisions cost minus infinity)
+            if prop == "C12" && case.family == 'T' && rng.chance(1, 4) { case.size |= crate::models::tmodel::F_BIG_M; }
             with_family!(case.family, drive_any, &case, prop, props);
         } else {
             let p = Profile { only_all_impacted, with_dominance: true, small: rng.chance(1, 3), max_width: 5, medium_share: 1, ..Default::default() };
             let mut spec = random_spec(rng, &p);
             spec.cfg.monitors = props;
+            if prop == "C12" && spec.family == 'T' && rng.chance(1, 4) { spec.size |= crate::models::tmodel::F_BIG_M; }
             // the livelock of finding H2 is not this property's business: keep the run short
             with_family!(spec.family, online, &spec, prop);
         }
